@@ -7,6 +7,8 @@ import BespokeVerif.Model.Basic
 import BespokeVerif.Model.Bits
 import BespokeVerif.Model.Constraint
 import BespokeVerif.Model.Instr
+import BespokeVerif.Model.Expr
+import BespokeVerif.Model.Layout
 open Lean BV
 
 namespace Drv
@@ -110,11 +112,129 @@ def opFields (j : Json) : R Json := do
   let spec : Json := if allFit then Json.mkObj [("bytes", jNats (specBytes fs))] else jErr .fieldOverflow
   return Json.mkObj [("impl", jBytesRes (getBytes fs)), ("spec", spec)]
 
+def parseEnv (j : Json) : R (String → Option Int) := do
+  match fldOpt j "env" with
+  | none => pure fun _ => none
+  | some e => do
+    let l ← e.getArr?
+    let kvs ← l.toList.mapM fun kv => do
+      let a ← kv.getArr?
+      if a.size ≠ 2 then throw "env entry" else pure ((← a[0]!.getStr?), (← a[1]!.getInt?))
+    pure fun s => (kvs.find? (·.1 == s)).map (·.2)
+
+/-- op "expr": text → value (lexer + parser + evaluator) -/
+def opExpr (j : Json) : R Json := do
+  let text ← str j "text"
+  let env ← parseEnv j
+  match evalText env text.toList with
+  | .ok v => return Json.mkObj [("value", jInt v)]
+  | .error e => return jErr e
+
+def binOpOf (s : String) : R BinOp :=
+  match s with
+  | "+" => pure .add | "-" => pure .sub | "*" => pure .mul | "/" => pure .div | "%" => pure .mod
+  | "<<" => pure .shl | ">>" => pure .shr | "&" => pure .band | "|" => pure .bor | "^" => pure .bxor
+  | _ => throw s!"binop {s}"
+
+/-- expression trees: ["num",n] ["label",s] ["neg",e] ["byte",k,e] ["bin",op,l,r] ["char",c] -/
+partial def parseE (j : Json) : R E := do
+  let a ← j.getArr?
+  let tag ← a[0]!.getStr?
+  match tag with
+  | "num" => return .num (← a[1]!.getInt?)
+  | "char" => do let s ← a[1]!.getStr?; return .num ((s.toList.head?.getD ' ').toNat)
+  | "label" => return .label (← a[1]!.getStr?)
+  | "neg" => return .neg (← parseE a[1]!)
+  | "byte" => return .byteN (← a[1]!.getNat?) (← parseE a[2]!)
+  | "bin" => return .bin (← binOpOf (← a[1]!.getStr?)) (← parseE a[2]!) (← parseE a[3]!)
+  | _ => throw s!"expr tag {tag}"
+
+def optStr (j : Json) (k : String) : Option String :=
+  match fldOpt j k with | some v => v.getStr?.toOption | none => none
+
+def parseStmt (j : Json) : R Stmt := do
+  let k ← str j "k"
+  match k with
+  | "label" => return .label (← str j "name")
+  | "const" => return .const (← str j "name") (← parseE (← fld j "e"))
+  | "data" => return .data (← nat j "w") (← (← arr j "vals").toList.mapM parseE)
+  | "bytes" => return .bytes (← (← arr j "bs").toList.mapM fun b => b.getNat?)
+  | "fill" => return .fill (← parseE (← fld j "cnt")) (← parseE (← fld j "val"))
+  | "zerountil" => return .zerountil (← parseE (← fld j "a"))
+  | "org" => return .org (← parseE (← fld j "e")) (optStr j "zone")
+  | "memzone" => return .memzone (← str j "z")
+  | "align" => match fldOpt j "p" with
+    | some p => return .align (some (← parseE p))
+    | none => return .align none
+  | "instr" => do
+    let args ← (← arr j "args").toList.mapM fun a => do
+      let x ← a.getArr?
+      pure ((← parseE x[0]!), (← x[1]!.getNat?))
+    return .instr (← nat j "opcode") args
+  | "mute" => return .mute
+  | "unmute" => return .unmute
+  | "createZone" => return .createZone (← str j "name") (← int j "s") (← int j "e")
+  | "comment" => return .comment
+  | "include" => return .includeFile (← nat j "f")
+  | _ => throw s!"stmt kind {k}"
+
+def parseCfg (j : Json) : R Cfg := do
+  let regs ← (← arr j "regs").toList.mapM fun r => r.getStr?
+  let preZones ← match fldOpt j "preZones" with
+    | none => pure []
+    | some z => do (← z.getArr?).toList.mapM fun e => do
+        let a ← e.getArr?; pure ((← a[0]!.getStr?), (← a[1]!.getInt?), (← a[2]!.getInt?))
+  let preConsts ← match fldOpt j "preConsts" with
+    | none => pure []
+    | some z => do (← z.getArr?).toList.mapM fun e => do
+        let a ← e.getArr?; pure ((← a[0]!.getStr?), (← a[1]!.getInt?))
+  let preData ← match fldOpt j "preData" with
+    | none => pure []
+    | some z => do (← z.getArr?).toList.mapM fun e => do
+        let a ← e.getArr?; pure ((← a[0]!.getStr?), (← a[1]!.getInt?), (← a[2]!.getInt?), (← a[3]!.getInt?))
+  return { bits := ← nat j "bits", origin := intD j "origin" 0, little := boolD j "little" false,
+           pageSize := intD j "pageSize" 1, regs := regs, preZones := preZones, preConsts := preConsts,
+           preData := preData }
+
+def jEmitted (e : Emitted) : Json :=
+  Json.mkObj [("addr", jInt e.addr), ("size", jInt e.size), ("bytes", jNats e.bytes), ("muted", Json.bool e.muted),
+              ("isByte", Json.bool e.isByte)]
+
+def jLabels (L : Labels) : Json :=
+  Json.mkObj [("glob", Json.arr (L.glob.map fun (n, v) => Json.arr #[Json.str n, jInt v]).toArray),
+              ("file", Json.arr (L.file.map fun (f, n, v) => Json.arr #[Json.num (JsonNumber.fromNat f), Json.str n, jInt v]).toArray),
+              ("loc", Json.arr (L.loc.map fun (f, k, n, v) => Json.arr #[Json.num (JsonNumber.fromNat f), Json.num (JsonNumber.fromNat k), Json.str n, jInt v]).toArray)]
+
+/-- op "asm": whole program (structured) → image / lines / labels or the rejection -/
+def opAsm (j : Json) : R Json := do
+  let cfg ← parseCfg (← fld j "cfg")
+  let files ← (← arr j "files").toList.mapM fun f => do (← f.getArr?).toList.mapM parseStmt
+  let start := intD j "start" 0
+  let stop := optInt j "end"
+  let fill := (intD j "fill" 0) % 256
+  let pre := assembleLines cfg files
+  let overlapSpec : Json := match pre with
+    | .ok (es, _) => Json.bool (overlapsSpec es)
+    | .error _ => Json.null
+  let preLines : Json := match pre with
+    | .ok (es, _) => Json.arr (es.map jEmitted).toArray
+    | .error _ => Json.null
+  match assemble cfg files start stop fill.toNat with
+  | .error e => return Json.mkObj [("err", Json.str e.name), ("overlapSpec", overlapSpec), ("lines", preLines)]
+  | .ok o =>
+    let specImg := match stop with
+      | some e => (List.range (e + 1 - start).toNat).map fun (i : Nat) => specImageByte o.emitted fill.toNat (start + (i : Int))
+      | none => o.image
+    return Json.mkObj [("image", jNats o.image), ("specImage", jNats specImg), ("overlapSpec", overlapSpec),
+                       ("lines", Json.arr (o.emitted.map jEmitted).toArray), ("labels", jLabels o.labels)]
+
 def dispatch (j : Json) : R Json := do
   let op ← str j "op"
   match op with
   | "bits" => opBits j
   | "fields" => opFields j
+  | "expr" => opExpr j
+  | "asm" => opAsm j
   | "ping" => pure (Json.mkObj [("pong", Json.bool true)])
   | _ => throw s!"unknown op {op}"
 
